@@ -13,8 +13,9 @@ def canon_value(v):
         return "t:-"
     if hasattr(v, "tm_year"):
         return "t:" + ",".join(str(x) for x in tuple(v))
-    if isinstance(v, dict) and all(isinstance(x, str) for x in dict.values(v)):
-        return "d:(" + ",".join(sorted("%s=%s" % (enc(k), enc(dict.__getitem__(v, k))) for k in dict.keys(v))) + ")"
+    if isinstance(v, dict) and all(isinstance(x, str) or x is None for x in dict.values(v)):
+        # attribute dicts and *_detail dicts (whose language may be None: "~")
+        return "d:(" + ",".join(sorted("%s=%s" % (enc(k), "~" if dict.__getitem__(v, k) is None else enc(dict.__getitem__(v, k))) for k in dict.keys(v))) + ")"
     return "?" + type(v).__name__
 
 
@@ -29,7 +30,7 @@ def canon_result(r):
 
 
 def state_str(st):
-    return "%d %d %d %d %s %s" % (st["depth"], st["nelem"], st["inentry"], st["nentries"], enc(st["baseuri"]), enc(st["lang"]))
+    return "%d %d %d %d %s %s %d" % (st["depth"], st["nelem"], st["inentry"], st["nentries"], enc(st["baseuri"]), enc(st["lang"]), 1 if st["incontent"] else 0)
 
 
 def lines_for(log, loose, result):
@@ -50,8 +51,8 @@ def lines_for(log, loose, result):
     if first is None or first["k"] != "start":
         return [], []
     pre = first["pre"]
-    lines = ["mix reset %d %s %s" % (loose, enc(pre["baseuri"]), enc(pre["lang"]))]
-    exp = ["0 0 0 0 %s %s" % (enc(pre["baseuri"]), enc(pre["lang"]))]
+    lines = ["mix reset %d %s %s %d %d" % (loose, enc(pre["baseuri"]), enc(pre["lang"]), pre.get("resolve", True), pre.get("sanitize", True))]
+    exp = ["0 0 0 0 %s %s 0" % (enc(pre["baseuri"]), enc(pre["lang"]))]
     i = 0
     while i < len(run):
         rec = run[i]
@@ -79,9 +80,16 @@ def lines_for(log, loose, result):
                 break
             # joins performed while this end tag was processed
             joins, j = [], i + 1
-            while j < len(run) and run[j]["k"] in ("join", "date"):
-                if run[j]["k"] == "join":
+            while j < len(run) and run[j]["k"] in ("join", "date", "looks", "decode", "resolve", "sanitize", "b64"):
+                kk = run[j]["k"]
+                if kk == "join":
                     joins.append("J:%s|%s" % (enc(run[j]["uri"]), enc(run[j]["result"])))
+                elif kk == "looks":
+                    joins.append("L:%d" % run[j]["result"])
+                elif kk in ("decode", "resolve", "sanitize"):
+                    joins.append("%s:%s" % ({"decode": "E", "resolve": "R", "sanitize": "Z"}[kk], enc(run[j]["result"])))
+                elif kk == "b64":
+                    joins.append("B:" + ("-" if run[j]["result"] is None else enc(run[j]["result"])))
                 else:
                     # what the real _parse_date answered for this element's text (M-date's subject; a parameter here)
                     joins.append("D:" + (",".join(str(x) for x in run[j]["result"]) if run[j]["result"] else "-"))
@@ -116,14 +124,63 @@ def compare(got, exp):
     return None
 
 
+TEXTS2 = ["plain title", " padded  text \n", "Tom & Jerry", "1 < 2", "a <b>bold</b> move", "see <a href=\"rel/x\">this</a> & that", "<script>alert(1)</script>visible", "x > y", "", "   ",
+          "UPPER lower", "<p style=\"color: red\" onclick=\"x()\">styled</p>", "a &amp; b", "5 &lt; 6", "caf&eacute; &copy;", "SGVsbG8gd29ybGQ=", "not base64 !!", "<i>unclosed", "line1\nline2"]
+
+
+def content_doc(rng):
+    """a feed over the stage-2 vocabulary: title (hand-modelled) and the text-construct elements the translator recognises from their
+    source (subtitle, tagline, rights, copyright, info, dc:rights, itunes:subtitle, dc:title, feedburner:browserFriendly), in feed and
+    entry context, with and without a type / mode attribute, with text that does or does not look like HTML.  Returns (bytes, parse kwargs)."""
+    esc = lambda t: t.replace("&", "&amp;").replace("<", "&lt;").replace(">", "&gt;")
+    def el(name, atom):
+        t = rng.choice(TEXTS2)
+        attrs = ""
+        r = rng.random()
+        if r < 0.45:
+            ty = rng.choice(["text", "html", "text/plain", "text/html", "TEXT", "application/octet-stream", "image/png", "text/x-foo", "application/xml"]) if atom else rng.choice(["text/html", "text/plain", "html"])
+            attrs = ' type="%s"' % ty
+        if rng.random() < 0.08:
+            attrs += ' mode="%s"' % rng.choice(["base64", "escaped"])
+        if rng.random() < 0.1:
+            attrs += ' xml:lang="%s"' % rng.choice(["en", "en_US", "fr-CA", ""])
+        if rng.random() < 0.08:
+            attrs += ' xml:base="http://other.example/sub/"'
+        body = ("<![CDATA[%s]]>" % t) if (rng.random() < 0.2 and "]]>" not in t) else esc(t)
+        return "<%s%s>%s</%s>" % (name, attrs, body, name)
+    atom = rng.random() < 0.5
+    ns = ' xmlns:dc="http://purl.org/dc/elements/1.1/" xmlns:itunes="http://www.itunes.com/dtds/podcast-1.0.dtd" xmlns:fb="http://rssnamespace.org/feedburner/ext/1.0" xmlns:x="http://unknown.example/"'
+    feed_names = (["title", "subtitle", "rights", "tagline", "info", "dc:rights", "dc:title", "itunes:subtitle"] if atom else
+                  ["title", "copyright", "dc:rights", "itunes:subtitle", "fb:browserFriendly", "dc:title", "tagline"])
+    entry_names = ["title", "rights", "dc:rights", "dc:title", "itunes:subtitle", "x:other"] if atom else ["title", "dc:rights", "dc:title", "itunes:subtitle", "copyright", "x:other"]
+    fmeta = "".join(el(n, atom) for n in rng.sample(feed_names, rng.randint(1, 4)))
+    entries = ""
+    for i in range(rng.randint(0, 3)):
+        inner = "".join(el(n, atom) for n in rng.sample(entry_names, rng.randint(1, 3)))
+        if rng.random() < 0.3:
+            inner += el("title", atom)            # a second title in the same entry (title_depth)
+        entries += ("<entry>%s</entry>" if atom else "<item>%s</item>") % inner
+    late = el(rng.choice(feed_names), atom) if rng.random() < 0.3 else ""
+    lang = rng.choice(["", ' xml:lang="en_GB"', ' xml:lang="de"'])
+    if atom:
+        doc = '<feed xmlns="http://www.w3.org/2005/Atom"%s%s>%s%s%s</feed>' % (ns, lang, fmeta, entries, late)
+    else:
+        doc = '<rss version="2.0"%s%s><channel>%s%s%s</channel></rss>' % (ns, lang, fmeta, entries, late)
+    kw = rng.choice([{}, {}, {"sanitize_html": False}, {"resolve_relative_uris": False}, {"sanitize_html": False, "resolve_relative_uris": False}])
+    return doc.encode("utf-8"), kw
+
+
 def corr(ctx, docs, headers, loose_p=0.4):
-    """correspondence of M-mixin with the real handler machine on a list of documents"""
+    """correspondence of M-mixin with the real handler machine on a list of documents (a document may be a (bytes, parse kwargs) pair)"""
     rng = ctx.rng
     lines, exp, meta = [], [], []
     dist = {"docs": 0, "strict": 0, "loose": 0, "unmodelled_docs": 0, "events": 0}
     for d in docs:
+        kw = {}
+        if isinstance(d, tuple):
+            d, kw = d
         loose = rng.random() < loose_p
-        r, log = tr.traced_parse(d, headers, loose=loose)
+        r, log = tr.traced_parse(d, headers, loose=loose, **kw)
         last_loose = loose or (not isinstance(r, Exception) and bool(r.get("bozo")))
         ls, ex = lines_for(log, last_loose, r)
         if not ls:
@@ -151,4 +208,4 @@ def corr(ctx, docs, headers, loose_p=0.4):
                 dis.append({"doc": meta[i][0], "loose": meta[i][1], "line": lines[i + c[1]][:200], "model": c[2][:400], "impl": c[3][:400]})
         i = j
     return {"cases": len(lines), "distinct": len(set(lines)), "unmodelled": dist["unmodelled_docs"], "disagreements": dis, "distribution": dist,
-            "samples": [{"doc": docs[0].decode("utf-8", "replace")[:300]}] if docs else []}
+            "samples": [{"doc": (docs[0][0] if isinstance(docs[0], tuple) else docs[0]).decode("utf-8", "replace")[:300]}] if docs else []}
